@@ -499,7 +499,7 @@ func (e *Engine) Deltify(target io.Reader, base *Signature, maxDataOpSize uint64
 				coalescedCount++
 				return nil
 			} else if err := e.transmitBlock(coalescedStart, coalescedCount, transmit); err != nil {
-				return nil
+				return err
 			}
 		}
 		coalescedStart = index
